@@ -83,6 +83,18 @@ pub proof fn lemma_nick_wf(o: VolatileState, n: VolatileState, a: String, b: Str
     }
 }
 
+// ---- the announcement of a nick change (C15: "announced to the user itself and to everyone sharing a channel with it") ----
+pub open spec fn on_common_channel(s: VolatileState, n: String, b: String) -> bool { exists|c: String| #[trigger] member(s, n, c) && member(s, b, c) }
+// the users in `vals` get one copy each; they are pairwise different registered users and include the renamed user and all its channel peers
+pub open spec fn nick_announced(before: Seq<(int, Seq<char>)>, after: Seq<(int, Seq<char>)>, fin: VolatileState, b: String, line: Seq<char>) -> bool {
+    exists|vals: Seq<User>|
+        #![trigger vals.no_duplicates()]
+        vals.no_duplicates()
+        && (forall|i: int| 0 <= i < vals.len() ==> fin.users@.values().contains(#[trigger] vals[i]))
+        && (forall|n: String| fin.users@.contains_key(n) && (n == b || on_common_channel(fin, n, b)) ==> vals.contains(#[trigger] fin.users@[n]))
+        && after == before + vals.map_values(|u: User| (u.sender.id(), line))
+}
+
 impl MainState {
 //@fn state/conn_cmds.rs MainState::process_nick unit=nick props=C15,C02,C03,C05,C11,C06,C04,C19 rules=R1,R2,R6,R6q,R14
 //@callargs authenticate state,+Tracked(sig)
@@ -110,6 +122,9 @@ impl MainState {
                 nick_post(*old(state), *final(state), my_nick(*old(conn_state)), sk(nick), final(conn_state).user_state.source)
                 && final(conn_state).user_state.nick == Some(sk(nick))
                 && final(conn_state).user_state.source@ == source_spec(ConnUserState { nick: Some(sk(nick)), ..old(conn_state).user_state }),
+            // ... and is announced, under the OLD prefix, once to the user itself and to everyone sharing a channel with it
+            r is Ok && old(conn_state).user_state.authenticated && sk(nick) != my_nick(*old(conn_state)) && !old(state).users@.contains_key(sk(nick)) ==> // @prop C15,C04
+                nick_announced(old(outbox).log, final(outbox).log, *final(state), sk(nick), render(*msg, old(conn_state).user_state.source@)),
             sym(*final(state)), // @prop C04,C05
             chans_wf(*final(state)), // @prop C04,C08
             no_empty_chan(*final(state)), // @prop C16
@@ -170,7 +185,46 @@ impl MainState {
                         lemma_nick_wf(o, *state, a, b, new_src);
                     }
                     let ghost fin = *state;
+                    let ghost log0 = outbox.log;
+                    let ghost line = render(*msg, old_source@);
+                    let ghost mut vals: Seq<User> = Seq::empty();
+                    proof {
+                        assert(old_source@ == old(conn_state).user_state.source@);
+                        // different users have different queues, hence are different values: as many values as nicknames
+                        assert forall|k1: String, k2: String| fin.users@.contains_key(k1) && fin.users@.contains_key(k2) && k1 != k2 implies fin.users@[k1] != fin.users@[k2] by {
+                            assert(fin.users@[k1].sender.id() != fin.users@[k2].sender.id());
+                        }
+                        lemma_inj_values_len(fin.users@);
+                    }
 //@loop ~for u in state\.users\.values\(\) iter=it2
-                        invariant *state == fin,
+                        invariant *state == fin, state_wf(fin), line == render(*msg, old_source@), log0 == old(outbox).log, b == sk(nick),
+                            fin.users@.values().len() == fin.users@.dom().len(),
+                            it2.seq().len() == fin.users@.dom().len(),
+                            forall|v: User| fin.users@.values().contains(v) ==> exists|i: int| 0 <= i < it2.seq().len() && *#[trigger] it2.seq()[i] == v,
+                            vals.len() == it2.index@,
+                            forall|j: int| 0 <= j < it2.index@ ==> vals[j] == *#[trigger] it2.seq()[j],
+                            outbox.log == log0 + vals.map_values(|u: User| (u.sender.id(), line)), // @prop C15,C04
+                            it2.index@ == it2.seq().len() ==> nick_announced(log0, outbox.log, fin, b, line), // @prop C15,C04
+//@endloop ~for u in state\.users\.values\(\)
+                        proof {
+                            let f = |u: User| (u.sender.id(), line);
+                            let vals0 = vals;
+                            assert(vals0.push(*u).map_values(f) =~= vals0.map_values(f).push(f(*u)));
+                            vals = vals0.push(*u);
+                        }
+                        assert(it2.index@ + 1 == it2.seq().len() ==> nick_announced(log0, outbox.log, fin, b, line)) by { // @prop C15,C04
+                            if it2.index@ + 1 == it2.seq().len() {
+                                // the whole table has been walked: by counting, every user exactly once
+                                assert forall|v: User| fin.users@.values().contains(v) implies vals.contains(v) by {
+                                    let i = choose|i: int| 0 <= i < it2.seq().len() && *#[trigger] it2.seq()[i] == v;
+                                    assert(vals[i] == v);
+                                }
+                                lemma_pigeon(vals, fin.users@.values());
+                                assert forall|n: String| fin.users@.contains_key(n) implies vals.contains(#[trigger] fin.users@[n]) by {
+                                    assert(fin.users@.values().contains(fin.users@[n]));
+                                }
+                                assert(nick_announced(log0, outbox.log, fin, b, line));
+                            }
+                        }
 //@end
 }
